@@ -21,7 +21,15 @@ RULE = ('gin-machine/call: 1-4 probe configurables with generated signatures (po
         'keyword-only, **kwargs) defined by the registered class or inherited from an unregistered base / grand-base class, '
         '0-7 bindings under the provisional selector over any number of scopes before the class is registered, 0-4 under '
         '<Class>.<method> after it, calls on an instance (direct / made by a @Class() reference), through the configurable '
-        'class and through the method\'s own configurable before the class registration; expectation from the property text.')
+        'class and through the method\'s own configurable before the class registration; expectation from the property text. '
+        'call-histories (implementation only): one probe of 10 callable shapes with positional / defaulted / *args / keyword-only / '
+        '**kwargs parameters (some defaulting to gin.REQUIRED), a history of 0-8 bindings (prefixes / non-prefixes of the active '
+        'scopes) interleaved with 2-9 calls, some made before the configuration is complete and therefore refused (REQUIRED marker '
+        'without binding, parameter without value, unknown keyword, surplus positional); caller\'s values are objects whose identity '
+        'is observable (list, dict, object, own __deepcopy__, forwarded ConfigurableReference, lock, generator) passed positionally, '
+        'into *args, by keyword, into **kwargs; for every call of the history the function must receive the very object the caller '
+        'passed, else the longest-prefix binding, else the default, whatever earlier calls did. non-trivial = a served call with a '
+        'caller value, a parameter supplied by a binding, and either an identity-observable keyword value or an earlier refused call.')
 TRUSTED_BASE = [
     'Coq 8.16.1 kernel; vm_compute in Examples and in the correspondence run; no native_compute',
     'axioms: none expected (see print_assumptions)',
@@ -845,4 +853,457 @@ class RegisteredMethodsEngine(Engine):
     return {'obs': T('Done'), 'fails': fails[:3], 'nontrivial': nontrivial, 'tags': tags}
 
 
-ENGINES = [CallEngine(), LateClassEngine(), CallableShapesEngine(), RegisteredMethodsEngine()]
+# ----------------------------------------------------------------------------
+# HISTORIES of calls on one configurable, and caller's values whose IDENTITY can be observed.  The property quantifies over
+# histories: what an earlier call did -- also one that was refused (a parameter marked gin.REQUIRED that the configuration does
+# not bind yet, a parameter left without any value, an unknown keyword, too many positional values) -- must not change who
+# supplies each parameter of a later call; and "reaches the function unchanged" is about the very object the caller passes
+# (a list the function fills for its caller, an object with its own __deepcopy__, a reference the caller forwards, a lock, a
+# generator), positionally, into *args, by keyword and into **kwargs.
+
+HIST_MODULE = 'histmod'
+HIST_SHAPES = ['fn', 'decorated', 'cfg_class', 'ext_class', 'reg_class', 'sub_cfg', 'bound_method', 'static_method',
+               'callable_instance', 'reg_method']
+HIST_XKW = ['z', 'y']
+# kinds of values a caller passes.  'REQ' is the gin.REQUIRED marker: the caller passes NO value and asks for the binding.
+HIST_KINDS = ['str', 'list', 'dict', 'obj', 'morph', 'ref', 'lock', 'gen', 'nested']
+HIST_IDENTITY_KINDS = ('list', 'dict', 'obj', 'morph', 'ref', 'lock', 'gen', 'nested')
+
+
+class Morph:
+  """a value with its own idea of what a deep copy of it is (as Gin's references, proxies, lazily evaluated objects have)"""
+
+  def __init__(self, tag):
+    self.tag = tag
+
+  def __deepcopy__(self, memo):
+    return 'a deep copy of ' + self.tag
+
+  def __repr__(self):
+    return 'Morph(%s)' % self.tag
+
+
+class Plain:
+  def __init__(self, tag):
+    self.tag = tag
+
+  def __repr__(self):
+    return 'Plain(%s)' % self.tag
+
+
+def hist_value(gin, kind, tag):
+  """-> (the object the caller passes, a description of its content that is taken again after the call)"""
+  import threading  # pylint: disable=g-import-not-at-top
+  if kind == 'str':
+    return tag
+  if kind == 'list':
+    return [tag]
+  if kind == 'dict':
+    return {tag: [1, 2]}
+  if kind == 'obj':
+    return Plain(tag)
+  if kind == 'morph':
+    return Morph(tag)
+  if kind == 'ref':
+    return gin.query_parameter(HIST_MODULE + '.helper.x')      # the ConfigurableReference object itself, forwarded
+  if kind == 'lock':
+    return threading.Lock()
+  if kind == 'gen':
+    return (x for x in (tag,))
+  if kind == 'nested':
+    return [tag, threading.Lock()]
+  raise ValueError(kind)
+
+
+def hist_content(v):
+  """what can be said about the content of a caller's value without consuming it"""
+  if isinstance(v, (str, list, dict)):
+    return repr(v)
+  return '%s at %x' % (type(v).__name__, id(v))
+
+
+def hist_sig(case):
+  def one(n, d):
+    return n if d == 'none' else '%s=gin.REQUIRED' % n if d == 'REQ' else "%s='default:%s'" % (n, n)
+  parts = [one(n, d) for n, d in case['params']]
+  if case['varargs']:
+    parts.append('*rest')
+  elif case['kwonly']:
+    parts.append('*')
+  parts += [one(n, d) for n, d in case['kwonly']]
+  if case['varkw']:
+    parts.append('**opts')
+  env = ['%r: %s' % (n, n) for n, _ in case['params'] + case['kwonly']]
+  env.append("'*': %s" % ('rest' if case['varargs'] else 'None'))
+  env.append("'**': %s" % ('opts' if case['varkw'] else 'None'))
+  return ', '.join(parts), '{%s}' % ', '.join(env)
+
+
+def build_hist_shape(gin, case):
+  """registers the probe; returns (call(*args, **kwargs) -> {param: the object received}, selector of the probe)"""
+  sig, env = hist_sig(case)
+  shape = case['shape']
+  ns = {'gin': gin, '__name__': HIST_MODULE}
+  src = ('import functools\n'
+         'def logged(fn):\n'
+         '  @functools.wraps(fn)\n'
+         '  def wrapper(*args, **kwargs):\n'
+         '    return fn(*args, **kwargs)\n'
+         '  return wrapper\n'
+         'def token():\n  return "TOKEN"\n'
+         'def helper(x=None):\n  return x\n')
+  selfsig = 'self, ' + sig if sig else 'self'
+  if shape in ('fn', 'decorated'):
+    src += 'def probe(%s):\n  return %s\n' % (sig, env)
+  elif shape in ('cfg_class', 'ext_class', 'reg_class', 'sub_cfg'):
+    src += 'class Base:\n  def __init__(%s):\n    self.env = %s\nclass Sub(Base):\n  pass\n' % (selfsig, env)
+  elif shape == 'reg_method':
+    src += 'class R:\n  @gin.register\n  def meth(%s):\n    return %s\n' % (selfsig, env)
+  else:
+    src += ('class K:\n'
+            '  def meth(%s):\n    return %s\n'
+            '  @staticmethod\n  def smeth(%s):\n    return %s\n'
+            '  def __call__(%s):\n    return %s\n') % (selfsig, env, sig, env, selfsig, env)
+  exec(src, ns)  # pylint: disable=exec-used
+  gin.configurable('token', module=HIST_MODULE)(ns['token'])
+  gin.configurable('helper', module=HIST_MODULE)(ns['helper'])
+  gin.parse_config('%s.helper.x = @%s.token()\n' % (HIST_MODULE, HIST_MODULE))
+  if shape == 'fn':
+    return gin.configurable('probe', module=HIST_MODULE)(ns['probe']), 'probe'
+  if shape == 'decorated':
+    return gin.configurable('probe', module=HIST_MODULE)(ns['logged'](ns['probe'])), 'probe'
+  if shape == 'reg_method':
+    gin.register('R', module=HIST_MODULE)(ns['R'])
+    inst = gin.get_configurable(ns['R'])()
+    return inst.meth, 'R.meth'
+  if shape in ('bound_method', 'static_method', 'callable_instance'):
+    K = ns['K']
+    target = {'bound_method': K().meth, 'static_method': K.smeth, 'callable_instance': K()}[shape]
+    return gin.external_configurable(target, name='probe', module=HIST_MODULE), 'probe'
+  Base, Sub = ns['Base'], ns['Sub']
+  if shape == 'cfg_class':
+    cls = gin.configurable('probe', module=HIST_MODULE)(Base)
+  elif shape == 'ext_class':
+    cls = gin.external_configurable(Base, name='probe', module=HIST_MODULE)
+  elif shape == 'reg_class':
+    gin.register('probe', module=HIST_MODULE)(Base)
+    cls = gin.get_configurable(Base)
+  else:
+    gin.configurable('probe_base', module=HIST_MODULE)(Base)
+    cls = gin.configurable('probe', module=HIST_MODULE)(Sub)
+  return (lambda *a, **k: cls(*a, **k).env), 'probe'
+
+
+def hist_expectation(case, call, binds):
+  """who supplies each parameter of this call, from the property text alone.  binds: [(scope list, param, value)] in the
+  order they were made so far (a later binding of the same scope and parameter replaces the earlier one).
+  returns (exp, None) with exp = {param: (source, what)} -- source 'caller' (what = ('pos', i) / ('kw', name)), 'binding'
+  (what = the bound value), 'default' -- plus '*' -> positions of the surplus positional values and '**' -> {name: (source,
+  what)}; or (None, reason) when the call cannot be made (then it has to be refused)."""
+  active = call['active']
+  names = [n for n, _ in case['params']]
+  kwn = [n for n, _ in case['kwonly']]
+  dflt = dict((n, d) for n, d in case['params'] + case['kwonly'])
+
+  def bound(p):
+    best = None
+    for scl, q, v in binds:
+      if q == p and scl == active[:len(scl)] and (best is None or len(scl) >= len(best[0])):
+        best = (scl, v)
+    return best
+
+  pos = call['pos']
+  if len(pos) > len(names) and not case['varargs']:
+    return None, 'more positional values than positional parameters'
+  if 'REQ' in pos[len(names):]:
+    return None, 'the REQUIRED marker among the values for *args'
+  exp, asked, extra = {}, set(), {}
+  for i, k in enumerate(pos[:len(names)]):
+    if k == 'REQ':
+      asked.add(names[i])
+    else:
+      exp[names[i]] = ('caller', ('pos', i))
+  for name, k in call['kw']:
+    if name in names or name in kwn:
+      if name in exp or name in asked:
+        return None, 'the caller passes %r twice' % name
+      if k == 'REQ':
+        asked.add(name)
+      else:
+        exp[name] = ('caller', ('kw', name))
+    elif case['varkw']:
+      if k == 'REQ':
+        asked.add(name)
+      else:
+        extra[name] = ('caller', ('kw', name))
+    else:
+      return None, 'unknown keyword %r' % name
+  for p in names + kwn:
+    if p in exp:
+      continue
+    b = bound(p)
+    if b is not None:
+      exp[p] = ('binding', b[1])
+    elif p in asked:
+      return None, 'REQUIRED marker for %r which has no applicable binding' % p
+    elif dflt[p] == 'plain':
+      exp[p] = ('default', 'default:' + p)
+    else:
+      return None, 'no value for %r' % p
+  if case['varkw']:
+    for x in HIST_XKW:
+      if x not in extra:
+        b = bound(x)
+        if b is not None:
+          extra[x] = ('binding', b[1])
+        elif x in asked:
+          return None, 'REQUIRED marker for %r which has no applicable binding' % x
+  exp['*'] = list(range(len(names), len(pos))) if case['varargs'] else None
+  exp['**'] = extra if case['varkw'] else None
+  return exp, None
+
+
+def gen_hist_case(rng):
+  shape = rng.choice(HIST_SHAPES)
+  pnames = list(rng.choice([['a', 'b', 'c'], ['a', 'b'], ['a'], ['first'], ['sink', 'item'], []]))
+  nreq = rng.choice([0, 0, 1, 1, 2])
+  params = []
+  for i, n in enumerate(pnames):
+    params.append([n, 'none' if i < nreq else ('REQ' if rng.random() < 0.12 else 'plain')])
+  varargs = rng.random() < 0.4
+  kwonly = []
+  for n in rng.choice([[], [], ['k'], ['tag', 'level'], ['k', 'tag']]):
+    r = rng.random()
+    kwonly.append([n, 'plain' if r < 0.75 else 'REQ' if r < 0.9 else 'none'])
+  varkw = rng.random() < 0.3
+  if not params and not kwonly:
+    kwonly = [['k', 'plain']]
+  case = {'shape': shape, 'params': params, 'varargs': varargs, 'kwonly': kwonly, 'varkw': varkw}
+  names = [n for n, _ in params]
+  kwn = [n for n, _ in kwonly]
+  active = ginm.gen_scope(rng, 3)
+  pool = [active[:i] for i in range(len(active) + 1)] * 3 + [ginm.gen_scope(rng, 2), list(reversed(active)), active[1:]]
+
+  def gen_bind(must=None):
+    p = must or rng.choice(names + kwn + (HIST_XKW if varkw else []))
+    return ['bind', '/'.join(rng.choice(pool)) if must is None or rng.random() < 0.4 else '', p,
+            rng.choice(['str', 'str', 'list']), rng.choice(['bind', 'parse'])]
+
+  def kind():
+    return 'str' if rng.random() < 0.3 else rng.choice(HIST_KINDS)
+
+  def gen_call(early):
+    npos = rng.randint(0, len(names))
+    pos = [('REQ' if rng.random() < (0.25 if early else 0.06) else kind()) for _ in range(npos)]
+    if varargs and npos == len(names) and rng.random() < 0.6:
+      pos += [kind() for _ in range(rng.randint(1, 3))]
+    elif not varargs and npos == len(names) and rng.random() < 0.04:
+      pos.append(kind())
+    kw = [[p, 'REQ' if rng.random() < (0.25 if early else 0.06) else kind()]
+          for p in names[npos:] + kwn + (HIST_XKW if varkw else []) if rng.random() < 0.35]
+    if not varkw and rng.random() < 0.03:
+      kw.append(['z', kind()])
+    if npos and rng.random() < 0.02:
+      kw.append([names[0], kind()])
+    r = rng.random()
+    return ['call', list(active if r < 0.6 else rng.choice(pool)), pos, kw]
+
+  steps = [gen_bind() for _ in range(rng.randint(0, 2))]
+  # calls made before the configuration is complete (several of them have to be refused)
+  steps += [gen_call(True) for _ in range(rng.randint(0, 3))]
+  # the configuration arrives: every parameter without a default of its own gets a binding somewhere
+  late = [gen_bind() for _ in range(rng.randint(1, 5))]
+  late += [gen_bind(n) for n, d in params + kwonly if d != 'plain' and rng.random() < 0.85]
+  rng.shuffle(late)
+  steps += late
+  steps += [gen_call(False) for _ in range(rng.randint(2, 5))]
+  if rng.random() < 0.3:
+    steps += [gen_bind(), gen_call(False)]
+  case['steps'] = steps
+  return case
+
+
+class CallHistoriesEngine(Engine):
+  """histories of calls on ONE configurable (function, function under a functools.wraps decorator, configurable / external /
+  registered class, class inheriting a configurable constructor, bound / static method and callable object through
+  external_configurable, @gin.register method of a registered class) whose signature mixes positional, defaulted, *args,
+  keyword-only and **kwargs parameters, some of them defaulting to gin.REQUIRED: bindings (root, prefixes and non-prefixes
+  of the active scopes; bind_parameter and parse_config) interleaved with calls, some made BEFORE the configuration is complete
+  so that they are refused (REQUIRED marker without binding, parameter without value, unknown keyword, too many positional
+  values).  The caller's values are objects whose identity is observable (lists, dicts, plain objects, objects with their own
+  __deepcopy__, a ConfigurableReference got from gin.query_parameter and forwarded, locks, generators, lists holding a lock),
+  passed positionally, into *args, by keyword and into **kwargs.  For EVERY call of the history, from the property text alone:
+  the function receives the very object the caller passed; every other parameter receives the value bound under the longest
+  prefix of the active scope, else its own default; a call the property cannot serve is refused; whatever happened in earlier
+  calls of the history (refused or not) changes nothing.  Implementation only: the model has no object identity and no
+  refused-call history."""
+  name = 'call-histories'
+  model = False
+
+  def budget(self, tier):
+    return 200 if tier == 'quick' else 6000
+
+  def corpus(self):
+    out = []
+    # (1) a call refused for a missing REQUIRED binding, then the configuration, then calls with surplus positional values
+    for shape in ('fn', 'cfg_class', 'reg_method', 'decorated'):
+      for early in (['call', [], ['REQ'], []], ['call', ['s1'], [], [['first', 'REQ'], ['tag', 'REQ']]],
+                    ['call', [], [], []]):
+        out.append({'shape': shape, 'params': [['first', 'none']], 'varargs': True,
+                    'kwonly': [['tag', 'plain'], ['level', 'plain']], 'varkw': False,
+                    'steps': [early,
+                              ['bind', '', 'tag', 'str', 'parse'], ['bind', '', 'level', 'str', 'parse'],
+                              ['bind', 's1', 'tag', 'str', 'parse'], ['bind', 's1/s2', 'level', 'list', 'bind'],
+                              ['bind', 's2', 'tag', 'str', 'bind'],
+                              ['call', [], ['str'], []], ['call', [], ['str', 'str'], []],
+                              ['call', [], ['str', 'list'], [['tag', 'str']]],
+                              ['call', ['s1'], ['obj', 'str', 'str'], []],
+                              ['call', ['s1', 's2'], ['str', 'str', 'gen', 'str'], []],
+                              ['call', ['s3'], ['str', 'str', 'str'], []],
+                              ['call', ['s2', 's1'], ['str', 'str'], [['level', 'dict']]]]})
+    # (2) values whose identity is observable, by keyword / positionally / into *args and **kwargs, with competing bindings
+    kw_kinds = ('list', 'dict', 'obj', 'morph', 'ref', 'lock', 'gen', 'nested')
+    for shape in HIST_SHAPES:
+      steps = [['bind', '', 'item', 'str', 'parse'], ['bind', '', 'sink', 'list', 'parse'], ['bind', 's1', 'item', 'str', 'bind'],
+               ['bind', 's1/s2', 'sink', 'str', 'bind'], ['bind', 's2', 'item', 'str', 'bind'], ['bind', 's1', 'z', 'str', 'bind']]
+      for i, k in enumerate(kw_kinds):
+        sc = ([], ['s1'], ['s1', 's2'], ['s2', 's1'])[i % 4]
+        steps.append(['call', sc, [], [['sink', k]]])
+        steps.append(['call', sc, [k], [['y', kw_kinds[(i + 3) % len(kw_kinds)]]]])
+      steps.append(['call', ['s1'], [], [['item', 'list'], ['z', 'morph']]])
+      out.append({'shape': shape, 'params': [['sink', 'plain'], ['item', 'plain']], 'varargs': False, 'kwonly': [],
+                  'varkw': True, 'steps': steps})
+    # (3) refused calls of the other sorts first, a REQUIRED default in the signature, then ordinary calls
+    for shape in ('fn', 'ext_class', 'bound_method', 'sub_cfg'):
+      out.append({'shape': shape, 'params': [['a', 'none'], ['b', 'REQ']], 'varargs': True, 'kwonly': [['k', 'REQ'], ['tag', 'plain']],
+                  'varkw': False,
+                  'steps': [['call', [], ['str', 'str'], []], ['call', [], [], [['nope', 'str']]], ['call', ['s1'], ['REQ', 'REQ'], []],
+                            ['bind', '', 'k', 'str', 'bind'], ['call', [], ['str'], []], ['bind', 's1', 'b', 'list', 'parse'],
+                            ['bind', 's1', 'tag', 'str', 'parse'], ['bind', '', 'a', 'str', 'parse'],
+                            ['call', ['s1'], ['str', 'REQ', 'list', 'obj'], []], ['call', ['s1', 's3'], ['REQ', 'list', 'str'], [['k', 'morph']]],
+                            ['call', ['s1'], [], [['k', 'lock']]], ['call', [], ['str', 'str', 'str'], []],
+                            ['call', ['s3'], [], [['b', 'ref'], ['a', 'REQ']]]]})
+    return out
+
+  def gen(self, rng, tier):
+    return gen_hist_case(rng)
+
+  def shrink(self, case):
+    steps = case['steps']
+    for i in range(len(steps)):
+      if len(steps) > 1:
+        yield dict(case, steps=steps[:i] + steps[i + 1:])
+    for i, st in enumerate(steps):
+      if st[0] != 'call':
+        continue
+      for j in range(len(st[3])):
+        yield dict(case, steps=steps[:i] + [[st[0], st[1], st[2], st[3][:j] + st[3][j + 1:]]] + steps[i + 1:])
+      if st[2] and len(st[2]) > len(case['params']):
+        yield dict(case, steps=steps[:i] + [[st[0], st[1], st[2][:-1], st[3]]] + steps[i + 1:])
+      if st[1]:
+        yield dict(case, steps=steps[:i] + [[st[0], st[1][:-1], st[2], st[3]]] + steps[i + 1:])
+    if case['shape'] != 'fn':
+      yield dict(case, shape='fn')
+
+  def impl(self, case):
+    gin = C.fresh_gin()
+    call_probe, selector = build_hist_shape(gin, case)
+    sig = hist_sig(case)[0]
+    fails, tags = [], [case['shape']]
+    binds = []
+    history = []            # one line per earlier step, for the report
+    refused_before = False
+    nontrivial = False
+    for n, st in enumerate(case['steps']):
+      if st[0] == 'bind':
+        _, sc, p, kind, how = st
+        tag = 'bound#%d@%s:%s' % (n, sc, p)
+        value = tag if kind == 'str' else [tag, 1]
+        key = (sc + '/' if sc else '') + selector + '.' + p
+        try:
+          if how == 'bind':
+            gin.bind_parameter(key, value)
+          else:
+            gin.parse_config('%s = %r\n' % (key, value))
+        except Exception as e:  # pylint: disable=broad-except
+          fails.append(('binding-rejected', '%s = %r (%s) raised %s: %s' % (key, value, how, type(e).__name__,
+                                                                          str(e).splitlines()[0][:160])))
+          continue
+        binds.append((sc.split('/') if sc else [], p, value))
+        history.append('%s = %r' % (key, value))
+        continue
+      call = {'active': st[1], 'pos': st[2], 'kw': st[3]}
+      exp, reason = hist_expectation(case, call, binds)
+      args = [gin.REQUIRED if k == 'REQ' else hist_value(gin, k, 'pos:%d#%d' % (i, n)) for i, k in enumerate(call['pos'])]
+      kwargs = {p: (gin.REQUIRED if k == 'REQ' else hist_value(gin, k, 'kw:%s#%d' % (p, n))) for p, k in call['kw']}
+      before = ([hist_content(a) for a in args], {p: hist_content(v) for p, v in kwargs.items()})
+      what = '%s probe(%s), step %d: call with args=%r kwargs=%r under scope %r after the history %r' % (
+          case['shape'], sig, n, call['pos'], call['kw'], '/'.join(call['active']), history)
+      try:
+        with gin.config_scope(list(call['active']) or None):
+          got = call_probe(*args, **kwargs)
+        err = None
+      except Exception as e:  # pylint: disable=broad-except
+        got, err = None, '%s: %s' % (type(e).__name__, str(e).splitlines()[0][:200] if str(e) else '')
+      history.append('call(args=%r, kwargs=%r) under %r -> %s' % (call['pos'], call['kw'], '/'.join(call['active']),
+                                                                 'raised ' + err.split(':')[0] if err else 'returned'))
+      if exp is None:
+        tags.append('refused' if err else 'not-refused')
+        if err is None:
+          fails.append(('call-should-fail', '%s returned %r although the call cannot be served: %s' % (what, got, reason)))
+        refused_before = refused_before or err is not None
+        continue
+      if err is not None:
+        fails.append(('call-raised-after-refused-call' if refused_before else 'call-raised',
+                      '%s raised %s; every parameter has a value: the property requires %r' % (what, err, exp)))
+        continue
+      tags.append('ok-after-refusal' if refused_before else 'ok')
+
+      def caller_value(w):
+        return args[w[1]] if w[0] == 'pos' else kwargs[w[1]]
+
+      def judge(label, seen, source, w):
+        """one received value against its expected source; returns a fail or None"""
+        if source == 'caller':
+          mine = caller_value(w)
+          if seen is not mine:
+            return ('caller-value-not-delivered', '%s: %s received %r, the caller passed the object %r (%s %r): it has to '
+                    'arrive unchanged, i.e. be that very object' % (what, label, seen, mine, w[0], w[1]))
+          now = hist_content(mine)
+          was = before[0][w[1]] if w[0] == 'pos' else before[1][w[1]]
+          if now != was:
+            return ('caller-value-changed', '%s: the caller\'s value for %s was %s before the call and is %s after it' % (
+                what, label, was, now))
+          return None
+        if seen != w or type(seen) is not type(w):
+          kind = 'binding-not-delivered' if source == 'binding' else 'default-not-kept'
+          return (kind + ('-after-refused-call' if refused_before else ''),
+                  '%s: %s received %r, the property requires %r (%s)' % (what, label, seen, w, source))
+        return None
+
+      bad = None
+      for p in [x for x, _ in case['params'] + case['kwonly']]:
+        bad = bad or judge('parameter %r' % p, got.get(p, '<absent>'), *exp[p])
+      if bad is None and case['varargs']:
+        rest = got.get('*')
+        if not isinstance(rest, tuple) or len(rest) != len(exp['*']):
+          bad = ('wrong-varargs', '%s: *rest received %r, the caller passed %d surplus positional values' % (what, rest, len(exp['*'])))
+        else:
+          for seen, i in zip(rest, exp['*']):
+            bad = bad or judge('*rest[%d]' % (i - len(case['params'])), seen, 'caller', ('pos', i))
+      if bad is None and case['varkw']:
+        opts = got.get('**')
+        if not isinstance(opts, dict) or set(opts) != set(exp['**']):
+          bad = ('wrong-varkw', '%s: **opts received %r, the property requires the names %r' % (what, opts, sorted(exp['**'])))
+        else:
+          for x, (source, w) in sorted(exp['**'].items()):
+            bad = bad or judge('**opts[%r]' % x, opts[x], source, w)
+      if bad is not None:
+        fails.append(bad)
+      by_kw = any(k in HIST_IDENTITY_KINDS for _, k in call['kw'])
+      from_binding = any(isinstance(v, tuple) and v[0] == 'binding' for v in exp.values())
+      nontrivial = nontrivial or (from_binding and (by_kw or refused_before) and len(call['pos']) + len(call['kw']) > 0)
+    return {'obs': T('Done'), 'fails': fails[:3], 'nontrivial': nontrivial, 'tags': tags}
+
+
+ENGINES = [CallEngine(), LateClassEngine(), CallableShapesEngine(), RegisteredMethodsEngine(), CallHistoriesEngine()]
